@@ -414,6 +414,17 @@ def applyAll (c : Coll) : List (Coll → Coll × Option Err) → Coll
   | [] => c
   | f :: rest => applyAll (f c).1 rest
 
+/-- The instance keys under which one invocation of `d`'s constructor stores outputs
+(scope.go:611-760): today every sibling of the call, whether or not it is still registered
+(finding D25). -/
+def storeOuts (_reg : List Desc) (d : Desc) : List (Nat × Key × Nat) := d.stores
+
+/-- What a repaired `createInstance` would do: skip siblings that are no longer the registration of
+their identity. (`ctor` identifies the Add call: the harness gives every call its own constructor.) -/
+def storeOutsRepaired (reg : List Desc) (d : Desc) : List (Nat × Key × Nat) :=
+  d.stores.filter fun s =>
+    ((reg.find? fun x => !x.key.isIdx && decide (x.ident = (s.1, s.2.1))).map (·.ctor)) == some d.ctor
+
 /-- constructors Build runs: singletons, and scoped initializers of the root scope; an instance
 registration has no constructor -/
 def buildRuns (ds : List Desc) : List Nat :=
